@@ -129,4 +129,48 @@ Proof.
   eexists _, _, _. repeat split; eauto.
 Qed.
 
+Ltac stepo :=
+  erewrite aao_cons;
+  [ | cbn [ok_in]; unfold_vec; len_norm;
+      first [reflexivity | apply Nat.ltb_lt; lia | apply Nat.leb_le; lia]
+    | cbn [apply]; unfold_vec;
+      first [reflexivity | apply insert_at_some; len_norm; lia | apply set_at_some; len_norm; lia
+            | apply remove_at_some; len_norm; lia] ].
+
+(* a limit change *)
+Theorem head_param_ok st l v n :
+  head_R st l v ->
+  exists st' v',
+    fst (head_update_limit st n) = st' /\
+    apply_all_ok (match snd (head_update_limit st n) with Some ds => ds | None => [] end) v = Some v' /\
+    head_R st' l v' /\ h_limit st' = n.
+Proof.
+  intros [Hb Hv]. destruct st as [buf old]. cbn [h_buf h_limit] in *. subst buf v.
+  exists {| h_buf := l; h_limit := n |}, (firstn n l).
+  unfold head_update_limit. cbn [h_buf h_limit].
+  destruct l as [|a l0] eqn:El.
+  { cbn [fst snd]. repeat split. cbn. rewrite !firstn_nil. reflexivity. }
+  rewrite <- El. assert (Hlen : 0 < length l) by (subst l; cbn; lia). clear El.
+  destruct (Nat.compare_spec old n) as [->|Hlt|Hgt]; cbn [fst snd].
+  - repeat split.
+  - destruct (firstn (n - old) (skipn old l)) as [|m ms] eqn:Em; cbn [fst snd]; repeat split.
+    + cbn. f_equal. assert (Hl : length (firstn (n - old) (skipn old l)) = 0) by (rewrite Em; reflexivity).
+      len_norm. rewrite !firstn_all2 by lia. reflexivity.
+    + assert (Hl : length (firstn (n - old) (skipn old l)) = S (length ms)) by (rewrite Em; reflexivity).
+      len_norm. rewrite <- Em. stepo. cbn. f_equal. list_ext.
+  - destruct (Nat.leb_spec (length l) n); cbn [fst snd]; repeat split.
+    + cbn. f_equal. rewrite !firstn_all2 by lia. reflexivity.
+    + stepo. cbn. f_equal. unfold_vec. list_ext.
+Qed.
+
+(* update_limit returns at most one diff and never Some [] *)
+Lemma head_update_limit_shape st n :
+  match snd (head_update_limit st n) with Some ds => length ds = 1 | None => True end.
+Proof.
+  unfold head_update_limit. destruct (h_buf st); [exact I|].
+  destruct (h_limit st ?= n); cbn [snd]; try exact I.
+  - destruct (firstn _ _); [exact I|reflexivity].
+  - destruct (_ <=? _); [exact I|reflexivity].
+Qed.
+
 End HeadFacts.
